@@ -83,6 +83,48 @@ func c12SourceFacts(b *strings.Builder) {
 	} {
 		fmt.Fprintf(b, "def paths_body_%s : String := %s\n", x.name, leanStr(funcBody(parse(x.file), x.recv, x.name)))
 	}
+	// round 6: how the resource-loader list of a nested load is derived from the parent's (Model/PathsLoaders.lean)
+	fmt.Fprintf(b, "def paths_body_RemoteResourceLoaders : String := %s\n", leanStr(funcBody(parse("loader/loader.go"), "Options", "RemoteResourceLoaders")))
+	fmt.Fprintf(b, "/-- every assignment to a `ResourceLoaders` field in the non-test files of package loader: (file, function, statement) -/\ndef paths_loaderAssignments : List (String × String × String) := [%s]\n",
+		strings.Join(c12LoaderAssignments(), ", "))
+}
+
+// c12LoaderAssignments lists every statement of package loader (normal build) that assigns to a field named ResourceLoaders.
+func c12LoaderAssignments() []string {
+	var res []string
+	ents, _ := os.ReadDir(filepath.Join(repo, "loader"))
+	for _, e := range ents {
+		n := e.Name()
+		if e.IsDir() || !strings.HasSuffix(n, ".go") || strings.HasSuffix(n, "_test.go") {
+			continue
+		}
+		f := parse("loader/" + n)
+		if !fileInNormalBuild(f) {
+			continue
+		}
+		for _, d := range f.Decls {
+			fd, ok := d.(*ast.FuncDecl)
+			if !ok || fd.Body == nil {
+				continue
+			}
+			ast.Inspect(fd.Body, func(nd ast.Node) bool {
+				switch x := nd.(type) {
+				case *ast.AssignStmt:
+					for _, l := range x.Lhs {
+						if sel, ok := l.(*ast.SelectorExpr); ok && sel.Sel.Name == "ResourceLoaders" {
+							res = append(res, fmt.Sprintf("(%s, %s, %s)", leanStr("loader/"+n), leanStr(fd.Name.Name), leanStr(strings.Join(strings.Fields(src(x)), " "))))
+						}
+					}
+				case *ast.KeyValueExpr:
+					if id, ok := x.Key.(*ast.Ident); ok && id.Name == "ResourceLoaders" {
+						res = append(res, fmt.Sprintf("(%s, %s, %s)", leanStr("loader/"+n), leanStr(fd.Name.Name), leanStr(strings.Join(strings.Fields(src(x)), " "))))
+					}
+				}
+				return true
+			})
+		}
+	}
+	return res
 }
 
 func init() {
